@@ -681,3 +681,46 @@ for nm, x, need in [('BOOLVECTOR.RAND', 'boolvec', 'S0.int.len() >= 1 && S0.floa
     r = ROWS[nm]
     r.clauses.append(('{C15}bound.alloc', '(%s && S1.%s.len() == S0.%s.len() + 1) ==> top(S1.%s, 0).values@.len() <= 4' % (need, x, x, x)))
     r.props.append('C15')
+FN_OVERLAYS['graph::graph_node_state_switch']['loops'] = {0: '            invariant graph.wf(),\n'}
+
+# ---- C18: value clauses on top of the Graph model (state_of, nodes@, edges@) ----
+_g0 = 'S0.graph.live().last()'
+_g1 = 'S1.graph.live().last()'
+ROWS['GRAPH.NODE*ADD'].clauses += [
+    ('fired.int-shape', '(S0.graph.n() >= 1 && S0.int.len() >= 1) ==> S1.int.len() == S0.int.len() && drop_n(S1.int, 1) =~= drop_n(S0.int, 1)'),
+    ('fired.edges-kept', '(S0.graph.n() >= 1 && S0.int.len() >= 1) ==> %s.edges@ == %s.edges@' % (_g1, _g0)),
+    ('fired.node-added', '(S0.graph.n() >= 1 && S0.int.len() >= 1) ==> '
+     '(exists|id: usize| (#[trigger] %s.nodes@.contains_key(id)) && %s.nodes@[id].sstate() == top(S0.int, 0) && (id <= 0x7fff_ffff ==> top(S1.int, 0) == id) '
+     '&& %s.nodes@.remove(id) == %s.nodes@.remove(id))' % (_g1, _g1, _g1, _g0))]
+_id = 'top(S0.int, 0)'
+ROWS['GRAPH.NODE*GETSTATE'].clauses += [
+    ('fired.state-pushed', '(S0.graph.n() >= 1 && S0.int.len() >= 1) ==> S1.int =~= '
+     '(if %s > 0 && %s.state_of(%s as usize).is_some() { S0.int.drop_last().push(%s.state_of(%s as usize).unwrap()) } else { S0.int.drop_last() })' % (_id, _g0, _id, _g0, _id))]
+# HISTORY: position (top) and id (second); the snapshot `pos` positions below the newest one is read
+_pos = 'top(S0.int, 0)'
+_hid = 'top(S0.int, 1)'
+_snap = 'S0.graph.live()[S0.graph.n() - 1 - %s]' % _pos
+ROWS['GRAPH.NODE*HISTORY'].clauses += [
+    ('fired.negative-position', '(S0.int.len() >= 1 && %s < 0) ==> S1.int =~= S0.int.drop_last()' % _pos),
+    ('fired.state-pushed', '(S0.int.len() >= 2 && %s >= 0) ==> S1.int =~= '
+     '(if %s < S0.graph.n() && %s >= 0 && %s.state_of(%s as usize).is_some() { drop_n(S0.int, 2).push(%s.state_of(%s as usize).unwrap()) } else { drop_n(S0.int, 2) })'
+     % (_pos, _pos, _hid, _snap, _hid, _snap, _hid))]
+# SETSTATE: new state = top, id = second
+_st = 'top(S0.int, 0)'
+_sid = 'top(S0.int, 1)'
+ROWS['GRAPH.NODE*SETSTATE'].clauses += [
+    ('fired.state-set', '(S0.graph.n() >= 1 && S0.int.len() >= 2 && %s > 0 && %s.nodes@.contains_key(%s as usize)) ==> '
+     '%s.state_of(%s as usize) == Some(%s) && %s.nodes@.remove(%s as usize) == %s.nodes@.remove(%s as usize) && %s.edges@ == %s.edges@'
+     % (_sid, _g0, _sid, _g1, _sid, _st, _g1, _sid, _g0, _sid, _g1, _g0)),
+    ('fired.stale-id', '(S0.graph.n() >= 1 && S0.int.len() >= 2 && !(%s > 0 && %s.nodes@.contains_key(%s as usize))) ==> %s.nodes@ == %s.nodes@ && %s.edges@ == %s.edges@'
+     % (_sid, _g0, _sid, _g1, _g0, _g1, _g0))]
+# EDGE*ADD: weight (FLOAT), origin = second integer, destination = top integer
+_o = 'top(S0.int, 1) as usize'
+_d = 'top(S0.int, 0) as usize'
+ROWS['GRAPH.EDGE*ADD'].clauses += [
+    ('fired.edge-added', '(S0.graph.n() >= 1 && S0.float.len() >= 1 && S0.int.len() >= 2) ==> %s.nodes@ == %s.nodes@ && %s.wf() '
+     '&& %s.edges@.remove(%s) == %s.edges@.remove(%s) '
+     '&& ((%s.nodes@.contains_key(%s) && %s.nodes@.contains_key(%s)) ==> %s.edges@.contains_key(%s) '
+     '&& (exists|i: int| 0 <= i < %s.edges@[%s]@.len() && (#[trigger] %s.edges@[%s]@[i]).sorigin() == %s)) '
+     '&& (!(%s.nodes@.contains_key(%s) && %s.nodes@.contains_key(%s)) ==> %s.edges@ == %s.edges@)'
+     % (_g1, _g0, _g1, _g1, _d, _g0, _d, _g0, _o, _g0, _d, _g1, _d, _g1, _d, _g1, _d, _o, _g0, _o, _g0, _d, _g1, _g0))]
